@@ -217,8 +217,10 @@ func insKey(ins []InSpec) string {
 }
 
 // signature of a deviation: adapter family (arity suffix dropped) + mechanism class.
+var mapperNames = strings.NewReplacer("(ObjectMapper)", "", "(UserMapper)", "")
+
 func signature(ad string, class string) string {
-	ad = strings.NewReplacer("(ObjectMapper)", "", "(UserMapper)", "").Replace(ad)
+	ad = mapperNames.Replace(ad)
 	if i := strings.LastIndex(ad, "/"); i > 0 {
 		ad = ad[:i]
 	}
@@ -233,7 +235,7 @@ func describe(ad *adapter, ins []InSpec, p int, script string, out outcome) (str
 	var tr []string
 	runCase(ad, ins, p, script, &tr)
 	cs.Trace = tr
-	return fmt.Sprintf("%s inputs=%s %s script=%q: %s; observed %v", ad.name, insKey(ins), cs.ParamIs, script, out.desc, tr), cs
+	return fmt.Sprintf("%s inputs=%s %s script=%q: %s; observed %v", ad.name, insKey(ins), cs.ParamIs, script, out.describe(), tr), cs
 }
 
 func (c *collector) violate(ad *adapter, ins []InSpec, p int, script string, out outcome) {
@@ -264,7 +266,7 @@ func RunInto(o *core.Options, r *core.Report) {
 	}
 
 	r.Assume(
-		"sequential half: bounds = input sequences of length <= "+fmt.Sprint(maxLen)+" over 3 ordered symbols (length <= "+fmt.Sprint(tripleLen)+" for 3-input adapters), scripts over {Next,Head,Stop} of length <= "+fmt.Sprint(scriptLen)+" ("+fmt.Sprint(len(scripts))+" scripts; 3-input adapters: "+fmt.Sprint(len(scripts3))+") plus the epilogue; thorough additionally runs 2-input adapters with sequences of length <= 4",
+		"sequential half: bounds = input sequences of length <= "+fmt.Sprint(maxLen)+" over 3 ordered symbols (length <= "+fmt.Sprint(tripleLen)+" for 3-input adapters), scripts over {Next,Head,Stop} of length <= "+fmt.Sprint(scriptLen)+" ("+fmt.Sprint(len(scripts))+" scripts; 3-input adapters: "+fmt.Sprint(len(scripts3))+") plus the epilogue; quick runs iterator.NewFilteredIterator with two filter functions and iterator.FromChannel with two messages on sequences of length <= 2; thorough runs 1-input adapters with sequences of length <= 5 and 2-input adapters with length <= 4",
 		"stub inputs behave like the repository's own iterators: a cancelled context wins, after Stop they answer Done, an injected error is sticky",
 		"aspects the doc comments leave open are not judged: the call at which an input error surfaces (only: never a value beyond it, never Done instead of it; earlier is tolerated and counted), every result after the first surfaced error or once the context is cancelled (except: Next/Head after Stop), which tuple represents a key in NewOrderedCombinedIterator, multiplicity of in-input duplicates in iterator.Merge, inputs violating a stated precondition (unsorted inputs of ordered merges), calling a filter function on (drop, error) combinations",
 		"an input counts as closed when it was stopped or read to its Done (storage.RelationshipTupleReader.Read: 'close the TupleIterator, either by consuming the entire iterator or by closing it'); being stopped more than once is only counted",
@@ -288,6 +290,9 @@ func RunInto(o *core.Options, r *core.Report) {
 		ml := maxLen
 		if ad.arity >= 3 {
 			ml = tripleLen
+		}
+		if !o.Thorough() && ad.quickLen > 0 {
+			ml = ad.quickLen
 		}
 		if o.Thorough() && ad.arity == 2 {
 			ml = 4
